@@ -1,0 +1,12 @@
+//go:build verif
+
+package xmlparse
+
+// Contracts checked by /verif (vcgo). Comment-only: no executable code.
+// ParseXML drives encoding/xml's token stream and a container/list stack; both are outside the verified subset.
+// Its result is taken as given (trusted) for conventional poms: see RootShape in package deps.
+
+//@ func ParseXML
+//@ trusted
+//@ ensures result != nil && Allocated(result)
+//@ ensures RootShape(*result)
